@@ -198,3 +198,58 @@ func H19c_ping_during_large_publish() {
 	vrtAssert("C19.pingresp_after_the_whole_publish", good)
 	vrtReach("C19.ping_during_large_publish")
 }
+
+// H19d_block_boundary: an active client whose transmission ends exactly where the receiver's read block
+// ends (8192 bytes in one burst - the socket read returns a completely filled block), one byte short of
+// it, one byte beyond it, or exactly two blocks. The read that follows - the one that waits for the
+// client's next packet - must be armed with a fresh deadline of 1..1.5 keep-alive periods counted from
+// that moment, and a PINGREQ sent later, within the keep-alive period, is answered (round-8 change C19-15:
+// "the burst is still draining" - no re-arming after a read that filled its block).
+func H19d_block_boundary() {
+	b := vrtBroker("mockSuccess")
+	start := vrtInt64("t0")
+	vrtAssume(vrtAnd(start >= 0, start < 1<<40))
+	vrtClockSet(start)
+	// (the deadline arithmetic for every keep-alive value is decided in H19_keepalive; here three values)
+	ka := []uint16{1, 60, 65535}[vrtChoice("keepalive", 3)]
+	K := int64(ka)
+	p := vrtConnectPkt([]byte("c"), true)
+	p.KeepAlive = ka
+	c, ack := b.connect(p)
+	vrtAssert("C19.harness_connack", vrtIsConnack(ack, false, 0))
+	bursts := [][]int{{8191}, {8192}, {8093, 100}, {8192, 8192}}
+	gap := vrtInt64("gap")
+	vrtAssume(vrtAnd(gap >= 0, gap < K*vrtSecond))
+	now := start + gap
+	vrtClockSet(now)
+	var burst []byte
+	for _, sz := range bursts[vrtChoice("burst", len(bursts))] {
+		// a QoS 0 PUBLISH of sz bytes on the wire: 1 + length field + 2 + len("a") + payload
+		lf := 2
+		if sz-2 < 128 {
+			lf = 1
+		}
+		payload := make([]byte, sz-1-lf-3)
+		for i := range payload {
+			payload[i] = byte('a' + i%23)
+		}
+		pk := specEncode(&specPkt{Typ: specPUBLISH, Topic: []byte("a"), Payload: payload})
+		vrtAssert("C19.harness_packet_size", len(pk) == sz)
+		burst = append(burst, pk...)
+	}
+	c.peerSend(burst)
+	vrtQuiesce()
+	vrtAssert("C19.active_client_not_dropped", !c.isClosed())
+	vrtCheckArmed(c, K, "after_full_block")
+	dl, _, _, _ := c.armState()
+	vrtAssert("C19.deadline_counts_from_the_last_bytes", dl >= now+K*vrtSecond)
+	// within the keep-alive period the client pings
+	gap2 := vrtInt64("gap2")
+	vrtAssume(vrtAnd(gap2 >= 0, gap2 < K*vrtSecond))
+	now += gap2
+	vrtClockSet(now)
+	vrtAssert("C19.active_client_deadline_not_passed", now < dl)
+	pong := vrtExchange(c, &specPkt{Typ: specPINGREQ})
+	vrtAssert("C19.pingresp", vrtBytesEq(pong, []byte{0xD0, 0}))
+	vrtReach("C19.block_boundary")
+}
